@@ -193,6 +193,14 @@ def theorem_coverage(ctx, ops_path):
                 bad = "needResync_no_leak"
         else:
             ctx.count("oracle.needresync.sound")
+        # the podsByIP / ipByPods clause: the real pod cache equals the model's line by line (differential); after EVERY history
+        # - proved class or not, stores ahead or not - it must be the function of the Pod store (PodCacheOK, evaluated)
+        if f.get("pc") == "1":
+            ctx.count("oracle.podcache.function-of-the-pods")
+        else:
+            ctx.violation("order:pod-cache-not-function-of-pods",
+                          "after the history podsByIP / ipByPods are not the running ready pods of the store by IP (the real "
+                          "controller's pod cache equals the model's: differential)", {"stream": "order", "ops": c, "classify": v}, True)
         if good == "1" and side == "1" and cold == "1" and nodes == "1":
             ctx.count("theorem.any_order_eq_cold_start-applies")
             if f.get("coldagree") != "1":
@@ -213,9 +221,25 @@ def feature_counters(ctx, ops_path):
     for c in split_cases(ctx.read_lines(ops_path)):
         pods, svcs, nss, slices = {}, {}, {}, {}
         seen = set()
+        held, updated, pod_in_window, used_ips = False, set(), False, {}
         for l in c[1:]:
             f = [unquote(t) for t in l.split()]
             op = f[0]
+            if op in ("hold", "release"):
+                held, updated, pod_in_window = (op == "hold"), set(), False
+            if op == "cold" and "rev" in l:
+                seen.add("cold-start-within-kind-order-reversed")
+            if held and op.startswith("del") and tuple(f[1:]) in updated:
+                seen.add("update-then-delete-of-one-object-inside-a-window(" + op[3:] + ")")
+            if held and op in ("pod", "svc", "slice", "ns"):
+                key = tuple(f[1:3]) if op != "ns" else (f[1],)
+                known = {"pod": pods, "svc": svcs, "slice": slices}.get(op)
+                if (op == "ns" and f[1] in nss) or (known is not None and tuple(f[1:3]) in known):
+                    updated.add(key)
+            if held and op == "pod":
+                pod_in_window = True
+            if held and op == "svc" and pod_in_window:
+                seen.add("service-write-after-pod-write-inside-a-window")
             if op == "hold":
                 seen.add("hold-window(stores ahead)")
             elif op == "pod" and len(f) == 10:
@@ -233,6 +257,13 @@ def feature_counters(ctx, ops_path):
                         seen.add("pod-ambient-annotation-changed(labelFilter annotation arm)")
                     if o["node"] != f[9]:
                         seen.add("pod-node-changed-in-place")
+                        if o["node"] not in ("", "~") and f[9] not in ("", "~"):
+                            seen.add("pod-node-changed-in-place(k1 <-> k2)")
+                    if o["sa"] != f[8]:
+                        seen.add("pod-service-account-changed-in-place")
+                    if ("@owner" in o["labels"]) != ("@owner" in labels) or \
+                            [x for x in o["labels"].split(",") if x.startswith("@owner")] != [x for x in labels.split(",") if x.startswith("@owner")]:
+                        seen.add("pod-owner-reference-changed-in-place")
                 elif not ip:
                     seen.add("pod-first-event-without-ip")
                 if phase == "F":
@@ -241,7 +272,11 @@ def feature_counters(ctx, ops_path):
                                   ("topology.istio.io/network", "pod-network-label")):
                     if key in labels:
                         seen.add(name)
-                pods[k] = {"ip": ip, "phase": phase, "ready": ready, "labels": labels, "node": f[9]}
+                if ip:
+                    if ip in used_ips and used_ips[ip] != k:
+                        seen.add("ip-reuse(another pod gets the address)")
+                    used_ips[ip] = k
+                pods[k] = {"ip": ip, "phase": phase, "ready": ready, "labels": labels, "node": f[9], "sa": f[8]}
             elif op == "delpod" and len(f) == 3:
                 pods.pop((f[1], f[2]), None)
             elif op == "svc" and len(f) == 7:
@@ -254,6 +289,10 @@ def feature_counters(ctx, ops_path):
                         seen.add(name)
                 if f[3] == "lb":
                     seen.add("svc-LoadBalancer-with-ingress")
+                if f[3] == "hl":
+                    seen.add("svc-headless")
+                if f[3] == "ext":
+                    seen.add("svc-ExternalName")
                 svcs[(f[1], f[2])] = fl
             elif op == "delsvc" and len(f) == 3:
                 svcs.pop((f[1], f[2]), None)
@@ -274,6 +313,22 @@ def feature_counters(ctx, ops_path):
                 o = slices.get(k)
                 if o and o["svc"] != svc:
                     seen.add("slice-relabel")
+                    if held:
+                        seen.add("slice-relabel-inside-a-window")
+                for e in f[6].split(","):
+                    p = e.split("/")
+                    if len(p) == 5 and ":" in p[4] and not p[4].startswith("!") and p[4].split(":")[0] != f[1]:
+                        seen.add("endpoint-targetref-into-another-namespace")
+                # the same address in two live slices of one service: a duplicate (conflicting when the endpoints differ),
+                # also the middle step of the address-move macro
+                mine = {e.split("/")[0].split("+")[0]: e for e in f[6].split(",") if "/" in e}
+                for kk, v in slices.items():
+                    if kk != k and kk[0] == f[1] and v["svc"] == svc and svc:
+                        for a, e in v.get("eps", {}).items():
+                            if a in mine:
+                                seen.add("duplicate-address-across-slices" + ("(conflicting)" if mine[a] != e else ""))
+                                if o and a not in o.get("eps", {}):
+                                    seen.add("address-added-to-a-second-slice(move macro / duplicate)")
                 if "nil:" in f[5] or f[5].endswith(":0") or ":0," in f[5]:
                     seen.add("slice-nil-port-name-or-number")
                 if f[5] in ("-", "~"):
@@ -284,7 +339,7 @@ def feature_counters(ctx, ops_path):
                     seen.add("endpoint-several-addresses")
                 if any(e.startswith("10.0.0.") and e.endswith("/-") for e in f[6].split(",")):
                     seen.add("endpoint-without-targetref-at-pod-address")
-                slices[k] = {"svc": svc, "ports": f[5]}
+                slices[k] = {"svc": svc, "ports": f[5], "eps": mine}
                 sib = [v for kk, v in slices.items() if kk[0] == f[1] and v["svc"] == svc and svc]
                 if len(sib) >= 3:
                     seen.add("three-slices-of-one-service")
@@ -315,14 +370,15 @@ def barrier_probe(ctx):
     if rc != 0 or not lines:
         ctx.tie_broken("barrier-probe", "the cold-start barrier probe did not run: " + log[-1500:])
         return
-    ctx.count("oracle.cold-start-barrier.probes")
-    if lines[0].startswith("FAIL"):
-        clause = lines[0].split()[1]
-        ctx.violation("order:" + clause,
-                      "the real controller's event queue ran before every informer had synced (or ended differently from an "
-                      "ordinary cold start): theorem class (2) assumes the stores are full before the first handler runs",
-                      {"stream": "barrier", "probe": "harness/c15/barrier.go barrierObjects: pod LIST refused until the queue has "
-                       "been observed idle", "verdict": lines[0][:3000]}, True)
+    for l in lines:
+        ctx.count("oracle.cold-start-barrier.probes")
+        if l.startswith("FAIL"):
+            clause = l.split()[1]
+            ctx.violation("order:" + clause,
+                          "the real controller's event queue ran before every informer had synced (or ended differently from an "
+                          "ordinary cold start): theorem class (2) assumes the stores are full before the first handler runs",
+                          {"stream": "barrier", "probe": "harness/c15/barrier.go barrierObjects: the LIST of one kind refused until "
+                           "the queue has been observed idle", "verdict": l[:3000]}, True)
 
 
 def _oracle_fails(ctx, stream, lines, tag):
@@ -378,25 +434,38 @@ def oracle(ctx, stream, case_lines, rep):
 def run(ctx):
     have = {k.get("fingerprint") for k in ctx.known}
     # the committed known-findings.json is the only list of known findings (never extended at run time)
-    ctx.rule = ("cases = random histories (2-30 writes) of Services (ClusterIP/headless/ExternalName), EndpointSlices (1-2 per "
-                "service: address moves, several addresses per endpoint, empty port lists, endpoints without targetRef at a pod's "
+    # shrinking a failing case runs the harness once per round (seconds under load): cap it, the unshrunk case is replayable too
+    _shrink = ctx.shrink
+    ctx.shrink = lambda stream, case_lines, max_rounds=40: _shrink(stream, case_lines, max_rounds=min(max_rounds, 40))
+    ctx.rule = ("cases = random histories (2-30 writes) of Services (ClusterIP/headless/ExternalName/LoadBalancer), EndpointSlices (1-3 per "
+                "service, sibling port lists may differ: address moves, several addresses per endpoint, empty port lists, endpoints without targetRef at a pod's "
                 "address or elsewhere, conflicting duplicates across slices, service-label edits), Pods (Pending then bound to a "
                 "node, phases incl. Failed = eviction through the informer's field selector, readiness, IP assignment/reuse, label "
-                "edits, deletion before or after the slice drops the endpoint), Nodes and Namespaces (traffic-distribution "
-                "annotation) over a small universe, in one interleaving, with hold/release windows in which the informer stores "
-                "run ahead of the handlers; distinct = hash of (ops, implementation outputs); non-trivial = at least one write")
+                "edits, in-place changes of node / service account / owner reference, deletion before or after the slice drops the "
+                "endpoint), Nodes and Namespaces (traffic-distribution annotation) over a small universe, in one interleaving, with "
+                "hold/release windows in which the informer stores run ahead of the handlers (incl. update-then-delete of one object, "
+                "relabels and Service-after-Pod writes inside a window), cold starts in random kind order and within-kind order; distinct = hash of (ops, implementation outputs); non-trivial = at least one write")
     ctx.assumptions = [
         "client-go informers deliver the events of one kind in order and the handler sees the latest object of the store",
         "one registry (one cluster); workload entries, MCS and multi-network gateways are not in the universe",
         "the generator stays inside inputs on which the real result does not depend on Go map iteration order: no two cached "
-        "pods share an IP used by an endpoint without targetRef (getPodsByIP ranges over a set), and no Service is written "
-        "after a Pod write inside one hold window (recomputeServiceForPod ranges over the unsorted services.List and stops "
-        "at the first Service missing from servicesMap)",
+        "pods share an IP used by an endpoint without targetRef (getPodsByIP ranges over a set); endpoints without targetRef at a "
+        "pod's address exist only at 10.0.0.3, which only pod p3 holds; an EndpointSlice's address type never changes (immutable "
+        "in the Kubernetes API); a targetRef into another namespace is generated rarely (in-place changes of such a pod are the "
+        "known class pod-of-another-namespace-updated-after-slice-built: only the pod's own namespace is searched for slices)",
+        "quick tier: the property oracle (five controllers per case) runs on the corpus and the first 400 of 650 generated cases; "
+        "the differential, the evaluated theorem instances, the needResync and pod-cache clauses cover all of them",
+        "the cold-start barrier probe waits 1.5 s for a NEGATIVE (no task ran while one informer's list was refused): it cannot "
+        "raise a false alarm, and misses a broken barrier only if the controller's goroutine is stalled for the whole period; the "
+        "namespace conjunct of informersSynced cannot be isolated (the discovery-namespace filter blocks on the shared informer)",
         "theorems: write-by-write histories (each event handled before the next write) in any interleaving, and the cold start "
         "in any order with Services before EndpointSlices; other stores-ahead windows are executed, not proved",
     ]
     ctx.trusted.append("pilot/pkg/serviceregistry/kube/controller/zz_verif_c15.go and pkg/queue/zz_verif_c15.go "
-                       "(verif-tagged: queue push / pending count, read-only cache snapshot)")
+                       "(verif-tagged: queue push / pending count, read-only cache snapshot, VerifC15InformerSync = the conjuncts "
+                       "of informersSynced)")
+    ctx.trusted.append("model.NewEndpointIndexUpdater (the EndpointIndex updater the harness hands to the controller instead of the "
+                       "DiscoveryServer: same SvcUpdate / EDSCacheUpdate / EDSUpdate code on the index, no push, no proxy)")
     ctx.trusted.append("kube.NewFakeClient and client-go's fake tracker stand in for the API server; the pod informer's field selector "
                        "status.phase!=Failed is emulated by list/watch reactors in the harness (a pod turning Failed is delivered as "
                        "a DELETE carrying the new object, as the API server's watch cache does)")
